@@ -30,31 +30,28 @@ def FdtQuiet (s : State) (now : Nat) : Prop :=
 structure Closed (B Inv : State → Held → Prop) : Prop where
   perm : ∀ s L L', L.Perm L' → Inv s L → Inv s L'
   leaveFiles : ∀ s L qs, Inv s L → Inv { s with sessions := qs, quiet := false } L
-  enterFiles : ∀ s L now, B s L → Inv s L → FdtQuiet s now → Inv { s with quiet := true } L
-  emitRead : ∀ s L now, B s L → Inv s L → Inv (emit s (.opRead now)) L
-  emitIdle : ∀ s L now, B s L → Inv s L → Inv (emit s (.idle now)) L
+  enterFiles : ∀ s L now, B s L → Inv s L → s.quiet = false → FdtQuiet s now → Inv { s with quiet := true } L
+  emitRead : ∀ s L now, B s L → Inv s L → s.quiet = false → Inv (emit s (.opRead now)) L
+  emitIdle : ∀ s L now, B s L → Inv s L → s.quiet = false → Inv (emit s (.idle now)) L
   publish : ∀ s L now, B s L → Inv s L → Inv (publish s now) L
-  fdtPop : ∀ s L k rest, B s L → Inv s L → s.fdtSess = none → s.fdtQueue = k :: rest →
-    Inv { s with curFdt := some k, fdtQueue := rest } L
-  fdtStart : ∀ s L k f now, B s L → Inv s L → s.fdtSess = none → s.curFdt = some k →
-    getF s.fdts k = some f → shouldTransferNow f 0 s.cfg.mode now = true →
-    Inv { fdtStartStep s k now with fdtSess := some (startFdtCur k) } L
-  fileStart : ∀ s L prio now tk t, B s L → Inv s L → findNext s prio now s.queue = some t →
+  fdtAdvance : ∀ s L now, B s L → Inv s L → s.quiet = false → s.fdtSess = none →
+    Inv (fdtAdvance s now) L
+  fileStart : ∀ s L prio now tk t, B s L → Inv s L → s.quiet = true → findNext s prio now s.queue = some t →
     Inv (autoPublish (fileStartStep s t now tk) now)
       ((prio, startCur (autoPublish (fileStartStep s t now tk) now) t) :: L)
-  pkt : ∀ s L prio c now f idx b e, B s ((prio, c) :: L) → Inv s ((prio, c) :: L) →
+  pkt : ∀ s L prio c now f idx b e, B s ((prio, c) :: L) → Inv s ((prio, c) :: L) → s.quiet = true →
     getF s.objs c.key = some f → s.fdtQueue.isEmpty = true → gateBlocked f now = false →
     encRead f.nSym c.enc (canStop f && !s.files.contains c.key) = (some (idx, b), e) →
     Inv (pktStep s prio c.key now idx b) ((prio, { c with enc := e }) :: L)
-  done : ∀ s L prio c now f e, B s ((prio, c) :: L) → Inv s ((prio, c) :: L) →
+  done : ∀ s L prio c now f e, B s ((prio, c) :: L) → Inv s ((prio, c) :: L) → s.quiet = true →
     getF s.objs c.key = some f → s.fdtQueue.isEmpty = true → gateBlocked f now = false →
     encRead f.nSym c.enc (canStop f && !s.files.contains c.key) = (none, e) →
     Inv (transferDoneFile s c.key now) L
-  fdtPkt : ∀ s L c f now idx b e, B s L → Inv s L → s.fdtSess = some c →
+  fdtPkt : ∀ s L c f now idx b e, B s L → Inv s L → s.quiet = false → s.fdtSess = some c →
     getF s.fdts c.key = some f → gateBlocked f now = false →
     encRead f.nSym c.enc false = (some (idx, b), e) →
     Inv (fdtStep s c e f.fdtId now idx) L
-  fdtDone : ∀ s L c f now e, B s L → Inv s L → s.fdtSess = some c →
+  fdtDone : ∀ s L c f now e, B s L → Inv s L → s.quiet = false → s.fdtSess = some c →
     getF s.fdts c.key = some f → gateBlocked f now = false →
     encRead f.nSym c.enc false = (none, e) →
     Inv (fdtRelease s c.key now) L
@@ -76,23 +73,22 @@ def And2 (B A : State → Held → Prop) : State → Held → Prop := fun s L =>
 theorem Closed.and {B A : State → Held → Prop} (hb : Closed0 B) (ha : Closed B A) : Closed0 (And2 B A) where
   perm := fun s L L' p h => ⟨hb.perm s L L' p h.1, ha.perm s L L' p h.2⟩
   leaveFiles := fun s L qs h => ⟨hb.leaveFiles s L qs h.1, ha.leaveFiles s L qs h.2⟩
-  enterFiles := fun s L now _ h q => ⟨hb.enterFiles s L now trivial h.1 q, ha.enterFiles s L now h.1 h.2 q⟩
-  emitRead := fun s L now _ h => ⟨hb.emitRead s L now trivial h.1, ha.emitRead s L now h.1 h.2⟩
-  emitIdle := fun s L now _ h => ⟨hb.emitIdle s L now trivial h.1, ha.emitIdle s L now h.1 h.2⟩
+  enterFiles := fun s L now _ h hq q => ⟨hb.enterFiles s L now trivial h.1 hq q, ha.enterFiles s L now h.1 h.2 hq q⟩
+  emitRead := fun s L now _ h hq => ⟨hb.emitRead s L now trivial h.1 hq, ha.emitRead s L now h.1 h.2 hq⟩
+  emitIdle := fun s L now _ h hq => ⟨hb.emitIdle s L now trivial h.1 hq, ha.emitIdle s L now h.1 h.2 hq⟩
   publish := fun s L now _ h => ⟨hb.publish s L now trivial h.1, ha.publish s L now h.1 h.2⟩
-  fdtPop := fun s L k rest _ h h1 h2 => ⟨hb.fdtPop s L k rest trivial h.1 h1 h2, ha.fdtPop s L k rest h.1 h.2 h1 h2⟩
-  fdtStart := fun s L k f now _ h h1 h2 h3 h4 =>
-    ⟨hb.fdtStart s L k f now trivial h.1 h1 h2 h3 h4, ha.fdtStart s L k f now h.1 h.2 h1 h2 h3 h4⟩
-  fileStart := fun s L prio now tk t _ h e =>
-    ⟨hb.fileStart s L prio now tk t trivial h.1 e, ha.fileStart s L prio now tk t h.1 h.2 e⟩
-  pkt := fun s L prio c now f idx b e _ h h1 h2 h3 h4 =>
-    ⟨hb.pkt s L prio c now f idx b e trivial h.1 h1 h2 h3 h4, ha.pkt s L prio c now f idx b e h.1 h.2 h1 h2 h3 h4⟩
-  done := fun s L prio c now f e _ h h1 h2 h3 h4 =>
-    ⟨hb.done s L prio c now f e trivial h.1 h1 h2 h3 h4, ha.done s L prio c now f e h.1 h.2 h1 h2 h3 h4⟩
-  fdtPkt := fun s L c f now idx b e _ h h1 h2 h3 h4 =>
-    ⟨hb.fdtPkt s L c f now idx b e trivial h.1 h1 h2 h3 h4, ha.fdtPkt s L c f now idx b e h.1 h.2 h1 h2 h3 h4⟩
-  fdtDone := fun s L c f now e _ h h1 h2 h3 h4 =>
-    ⟨hb.fdtDone s L c f now e trivial h.1 h1 h2 h3 h4, ha.fdtDone s L c f now e h.1 h.2 h1 h2 h3 h4⟩
+  fdtAdvance := fun s L now _ h hq h1 =>
+    ⟨hb.fdtAdvance s L now trivial h.1 hq h1, ha.fdtAdvance s L now h.1 h.2 hq h1⟩
+  fileStart := fun s L prio now tk t _ h hq e =>
+    ⟨hb.fileStart s L prio now tk t trivial h.1 hq e, ha.fileStart s L prio now tk t h.1 h.2 hq e⟩
+  pkt := fun s L prio c now f idx b e _ h hq h1 h2 h3 h4 =>
+    ⟨hb.pkt s L prio c now f idx b e trivial h.1 hq h1 h2 h3 h4, ha.pkt s L prio c now f idx b e h.1 h.2 hq h1 h2 h3 h4⟩
+  done := fun s L prio c now f e _ h hq h1 h2 h3 h4 =>
+    ⟨hb.done s L prio c now f e trivial h.1 hq h1 h2 h3 h4, ha.done s L prio c now f e h.1 h.2 hq h1 h2 h3 h4⟩
+  fdtPkt := fun s L c f now idx b e _ h hq h1 h2 h3 h4 =>
+    ⟨hb.fdtPkt s L c f now idx b e trivial h.1 hq h1 h2 h3 h4, ha.fdtPkt s L c f now idx b e h.1 h.2 hq h1 h2 h3 h4⟩
+  fdtDone := fun s L c f now e _ h hq h1 h2 h3 h4 =>
+    ⟨hb.fdtDone s L c f now e trivial h.1 hq h1 h2 h3 h4, ha.fdtDone s L c f now e h.1 h.2 hq h1 h2 h3 h4⟩
 
 theorem ClosedOps.and {B A : State → Held → Prop} (hb : ClosedOps0 B) (ha : ClosedOps B A) : ClosedOps0 (And2 B A) where
   add := fun s L a _ h => ⟨hb.add s L a trivial h.1, ha.add s L a h.1 h.2⟩
@@ -105,71 +101,112 @@ theorem ClosedOps.and {B A : State → Held → Prop} (hb : ClosedOps0 B) (ha : 
 
 @[simp] theorem emit_sessions (s : State) (e : Ev) : (emit s e).sessions = s.sessions := rfl
 @[simp] theorem emit_fdtSess (s : State) (e : Ev) : (emit s e).fdtSess = s.fdtSess := rfl
+@[simp] theorem emit_quiet (s : State) (e : Ev) : (emit s e).quiet = s.quiet := rfl
 @[simp] theorem publish_sessions (s : State) (now : Nat) : (publish s now).sessions = s.sessions := rfl
 @[simp] theorem publish_fdtSess (s : State) (now : Nat) : (publish s now).fdtSess = s.fdtSess := rfl
+@[simp] theorem publish_quiet (s : State) (now : Nat) : (publish s now).quiet = s.quiet := rfl
 
 theorem fdtMaybePublish_fdtSess (s : State) (now : Nat) : (fdtMaybePublish s now).fdtSess = s.fdtSess := by
+  unfold fdtMaybePublish; split <;> rfl
+theorem fdtMaybePublish_sessions (s : State) (now : Nat) : (fdtMaybePublish s now).sessions = s.sessions := by
+  unfold fdtMaybePublish; split <;> rfl
+theorem fdtMaybePublish_quiet (s : State) (now : Nat) : (fdtMaybePublish s now).quiet = s.quiet := by
   unfold fdtMaybePublish; split <;> rfl
 
 theorem fdtPop_fdtSess (s : State) : (fdtPop s).fdtSess = s.fdtSess := by
   unfold fdtPop; split <;> rfl
+theorem fdtPop_sessions (s : State) : (fdtPop s).sessions = s.sessions := by
+  unfold fdtPop; split <;> rfl
+theorem fdtPop_quiet (s : State) : (fdtPop s).quiet = s.quiet := by
+  unfold fdtPop; split <;> rfl
+
+theorem fdtTryStart_sessions (s : State) (now : Nat) : (fdtTryStart s now).1.sessions = s.sessions := by
+  unfold fdtTryStart
+  split
+  · rfl
+  · split
+    · rfl
+    · split <;> rfl
+
+theorem fdtTryStart_quiet (s : State) (now : Nat) : (fdtTryStart s now).1.quiet = s.quiet := by
+  unfold fdtTryStart
+  split
+  · rfl
+  · split
+    · rfl
+    · split <;> rfl
+
+theorem fdtAdvance_sessions (s : State) (now : Nat) : (fdtAdvance s now).sessions = s.sessions := by
+  have := fdtTryStart_sessions (fdtPop s) now
+  rw [fdtPop_sessions] at this
+  unfold fdtAdvance
+  split <;> simp_all
+
+theorem fdtAdvance_quiet (s : State) (now : Nat) : (fdtAdvance s now).quiet = s.quiet := by
+  have := fdtTryStart_quiet (fdtPop s) now
+  rw [fdtPop_quiet] at this
+  unfold fdtAdvance
+  split <;> simp_all
+
+theorem fdtGetNext_sessions (s : State) (now : Nat) : (fdtGetNext s now).sessions = s.sessions := by
+  unfold fdtGetNext
+  split
+  · rfl
+  · rw [fdtAdvance_sessions, fdtMaybePublish_sessions]
+
+theorem fdtGetNext_quiet (s : State) (now : Nat) : (fdtGetNext s now).quiet = s.quiet := by
+  unfold fdtGetNext
+  split
+  · rfl
+  · rw [fdtAdvance_quiet, fdtMaybePublish_quiet]
+
+theorem transferDoneFdt_sessions (s : State) (k now : Nat) : (transferDoneFdt s k now).sessions = s.sessions := by
+  unfold transferDoneFdt
+  simp only []
+  split
+  · split <;> rfl
+  · rfl
+
+theorem transferDoneFdt_quiet (s : State) (k now : Nat) : (transferDoneFdt s k now).quiet = s.quiet := by
+  unfold transferDoneFdt
+  simp only []
+  split
+  · split <;> rfl
+  · rfl
+
+theorem fdtRelease_sessions (s : State) (k now : Nat) : (fdtRelease s k now).sessions = s.sessions := by
+  unfold fdtRelease
+  exact transferDoneFdt_sessions s k now
+
+theorem fdtRelease_quiet (s : State) (k now : Nat) : (fdtRelease s k now).quiet = s.quiet := by
+  unfold fdtRelease
+  exact transferDoneFdt_quiet s k now
+
+theorem autoPublish_quiet (s : State) (now : Nat) : (autoPublish s now).quiet = s.quiet := by
+  unfold autoPublish; split <;> rfl
+
+theorem transferDoneFile_quiet (s : State) (t now : Nat) : (transferDoneFile s t now).quiet = s.quiet := by
+  unfold transferDoneFile
+  simp only []
+  split
+  · rfl
+  · split
+    · split <;> rfl
+    · rfl
 
 theorem fdtGetNext_inv {Inv : State → Held → Prop} (hc : Closed0 Inv) (s : State) (L : Held) (now : Nat)
-    (h : Inv s L) (hs : s.fdtSess = none) : Inv (fdtGetNext s now) L := by
-  unfold fdtGetNext getNextFdt
+    (h : Inv s L) (hq : s.quiet = false) (hs : s.fdtSess = none) :
+    Inv (fdtGetNext s now) L := by
+  unfold fdtGetNext
   split
-  · rename_i s' k heq
-    split at heq
-    · simp at heq
-    · -- not busy
-      have h1 : Inv (fdtMaybePublish s now) L := by
-        unfold fdtMaybePublish; split
-        · exact hc.publish s L now trivial h
-        · exact h
-      have hs1 : (fdtMaybePublish s now).fdtSess = none := by rw [fdtMaybePublish_fdtSess, hs]
-      have h2 : Inv (fdtPop (fdtMaybePublish s now)) L := by
-        unfold fdtPop; split
-        · rename_i k rest hq
-          exact hc.fdtPop _ L k rest trivial h1 hs1 hq
-        · exact h1
-      have hs2 : (fdtPop (fdtMaybePublish s now)).fdtSess = none := by rw [fdtPop_fdtSess, hs1]
-      generalize fdtPop (fdtMaybePublish s now) = s2 at h2 hs2 heq
-      unfold fdtTryStart at heq
-      split at heq
-      · simp at heq
-      · rename_i k' hk'
-        split at heq
-        · simp at heq
-        · rename_i f hf
-          split at heq
-          · rename_i hst
-            simp only [Prod.mk.injEq, Option.some.injEq] at heq
-            obtain ⟨e1, e2⟩ := heq
-            subst e1 e2
-            exact hc.fdtStart s2 L k' f now trivial h2 hs2 hk' hf hst
-          · simp at heq
-  · rename_i s' heq
-    split at heq
-    · simp at heq; rw [← heq]; exact h
-    · have h1 : Inv (fdtMaybePublish s now) L := by
-        unfold fdtMaybePublish; split
-        · exact hc.publish s L now trivial h
-        · exact h
-      have hs1 : (fdtMaybePublish s now).fdtSess = none := by rw [fdtMaybePublish_fdtSess, hs]
-      have h2 : Inv (fdtPop (fdtMaybePublish s now)) L := by
-        unfold fdtPop; split
-        · rename_i k rest hq
-          exact hc.fdtPop _ L k rest trivial h1 hs1 hq
-        · exact h1
-      generalize fdtPop (fdtMaybePublish s now) = s2 at h2 heq
-      unfold fdtTryStart at heq
-      split at heq
-      · simp at heq; rw [← heq]; exact h2
-      · split at heq
-        · simp at heq; rw [← heq]; exact h2
-        · split at heq
-          · simp at heq
-          · simp at heq; rw [← heq]; exact h2
+  · exact h
+  · have h1 : Inv (fdtMaybePublish s now) L := by
+      unfold fdtMaybePublish; split
+      · exact hc.publish s L now trivial h
+      · exact h
+    have hs1 : (fdtMaybePublish s now).fdtSess = none := by rw [fdtMaybePublish_fdtSess, hs]
+    have hq1 : (fdtMaybePublish s now).quiet = false := by rw [fdtMaybePublish_quiet, hq]
+    exact hc.fdtAdvance _ L now trivial h1 hq1 hs1
 
 theorem getF_map (l : List FileDesc) (g : FileDesc → FileDesc) (hk : ∀ f, (g f).key = f.key) (k : Nat) :
     getF (l.map g) k = (getF l k).map g := by
@@ -209,8 +246,8 @@ theorem getF_mem {l : List FileDesc} {k : Nat} {f : FileDesc} (h : getF l k = so
 
 theorem getNextFile_inv {Inv : State → Held → Prop} (hc : Closed0 Inv) (s : State) (L : Held)
     (prio now : Nat) (ticks : List (Nat × Nat)) (s' : State) (t : Nat)
-    (h : Inv s L) (hg : getNextFile s prio now ticks = (s', some t)) :
-    Inv s' ((prio, startCur s' t) :: L) := by
+    (h : Inv s L) (hq : s.quiet = true) (hg : getNextFile s prio now ticks = (s', some t)) :
+    Inv s' ((prio, startCur s' t) :: L) ∧ s'.quiet = true := by
   unfold getNextFile at hg
   split at hg
   · simp at hg
@@ -219,22 +256,22 @@ theorem getNextFile_inv {Inv : State → Held → Prop} (hc : Closed0 Inv) (s : 
     obtain ⟨e1, e2⟩ := hg
     subst e2
     rw [← e1]
-    exact hc.fileStart s L prio now (tkGet ticks t') t' trivial h hf
+    exact ⟨hc.fileStart s L prio now (tkGet ticks t') t' trivial h hq hf, by rw [autoPublish_quiet]; exact hq⟩
 
 /-! ### the loops of `Sender::read` preserve a closed invariant -/
 
 variable {Inv : State → Held → Prop}
 
-theorem runFdt_inv (hc : Closed0 Inv) : ∀ fuel s now L, Inv s L → Inv (runFdt fuel s now).1 L := by
+theorem runFdt_inv (hc : Closed0 Inv) : ∀ fuel s now L, Inv s L → s.quiet = false →
+    Inv (runFdt fuel s now).1 L ∧ (runFdt fuel s now).1.quiet = false := by
   intro fuel
   induction fuel with
-  | zero => intro s now L h; simpa [runFdt] using h
+  | zero => intro s now L h hq; exact ⟨by simpa [runFdt] using h, by simpa [runFdt] using hq⟩
   | succ n ih =>
-    intro s now L h
+    intro s now L h hq
     unfold runFdt
-    -- the state after the optional get_next
-    have key : ∀ s1 : State, Inv s1 L →
-        Inv (match s1.fdtSess with
+    have key : ∀ s1 : State, Inv s1 L → s1.quiet = false →
+        let r := (match s1.fdtSess with
           | none => (s1, Out.none)
           | some c =>
             match getF s1.fdts c.key with
@@ -243,36 +280,41 @@ theorem runFdt_inv (hc : Closed0 Inv) : ∀ fuel s now L, Inv s L → Inv (runFd
               if gateBlocked f now then (s1, Out.none) else
               match encRead f.nSym c.enc false with
               | (none, _) => runFdt n (fdtRelease s1 c.key now) now
-              | (some (idx, _), e) => (fdtStep s1 c e f.fdtId now idx, Out.fdt c.key f.fdtId idx)).1 L := by
-      intro s1 h1
+              | (some (idx, _), e) => (fdtStep s1 c e f.fdtId now idx, Out.fdt c.key f.fdtId idx))
+        Inv r.1 L ∧ r.1.quiet = false := by
+      intro s1 h1 hq1
+      simp only []
       split
-      · exact h1
+      · exact ⟨h1, hq1⟩
       · rename_i c hc1
         split
-        · exact h1
+        · exact ⟨h1, hq1⟩
         · rename_i f hf
           split
-          · exact h1
+          · exact ⟨h1, hq1⟩
           · rename_i hg
             split
             · rename_i e he
-              exact ih _ _ _ (hc.fdtDone s1 L c f now e trivial h1 hc1 hf (by simpa using hg) he)
+              exact ih _ _ _ (hc.fdtDone s1 L c f now e trivial h1 hq1 hc1 hf (by simpa using hg) he)
+                (by rw [fdtRelease_quiet]; exact hq1)
             · rename_i idx b e he
-              exact hc.fdtPkt s1 L c f now idx b e trivial h1 hc1 hf (by simpa using hg) he
+              exact ⟨hc.fdtPkt s1 L c f now idx b e trivial h1 hq1 hc1 hf (by simpa using hg) he, hq1⟩
     cases hs : s.fdtSess with
-    | some c => simp only []; exact key s h
-    | none => simp only []; exact key _ (fdtGetNext_inv hc s L now h hs)
+    | some c => simp only []; exact key s h hq
+    | none =>
+      simp only []
+      exact key _ (fdtGetNext_inv hc s L now h hq hs) (by rw [fdtGetNext_quiet]; exact hq)
 
 theorem runFile_inv (hc : Closed0 Inv) : ∀ fuel s prio cur now ticks O,
-    Inv s (optHeld prio cur ++ O) →
-    Inv (runFile fuel s prio cur now ticks).1 (optHeld prio (runFile fuel s prio cur now ticks).2.1 ++ O) := by
+    Inv s (optHeld prio cur ++ O) → s.quiet = true →
+    Inv (runFile fuel s prio cur now ticks).1 (optHeld prio (runFile fuel s prio cur now ticks).2.1 ++ O) ∧
+    (runFile fuel s prio cur now ticks).1.quiet = true := by
   intro fuel
   induction fuel with
-  | zero => intro s prio cur now ticks O h; simpa [runFile] using h
+  | zero => intro s prio cur now ticks O h hq; exact ⟨by simpa [runFile] using h, by simpa [runFile] using hq⟩
   | succ n ih =>
-    intro s prio cur now ticks O h
-    -- after the optional get_next
-    have key : ∀ (s1 : State) (cur1 : Option Cur), Inv s1 (optHeld prio cur1 ++ O) →
+    intro s prio cur now ticks O h hq
+    have key : ∀ (s1 : State) (cur1 : Option Cur), Inv s1 (optHeld prio cur1 ++ O) → s1.quiet = true →
         let r := (if !s1.fdtQueue.isEmpty then (s1, cur1, Out.none) else
           match cur1 with
           | none => (s1, none, Out.none)
@@ -284,32 +326,32 @@ theorem runFile_inv (hc : Closed0 Inv) : ∀ fuel s prio cur now ticks O,
               match encRead f.nSym c.enc (canStop f && !s1.files.contains c.key) with
               | (none, _) => runFile n (transferDoneFile s1 c.key now) prio none now ticks
               | (some (idx, b), e) => (pktStep s1 prio c.key now idx b, some { c with enc := e }, Out.pkt prio c.key idx b))
-        Inv r.1 (optHeld prio r.2.1 ++ O) := by
-      intro s1 cur1 h1
+        Inv r.1 (optHeld prio r.2.1 ++ O) ∧ r.1.quiet = true := by
+      intro s1 cur1 h1 hq1
       simp only []
       split
-      · exact h1
-      · rename_i hq
+      · exact ⟨h1, hq1⟩
+      · rename_i hqe
         cases cur1 with
-        | none => exact h1
+        | none => exact ⟨h1, hq1⟩
         | some c =>
           simp only []
           split
-          · exact h1
+          · exact ⟨h1, hq1⟩
           · rename_i f hf
             split
-            · exact h1
+            · exact ⟨h1, hq1⟩
             · rename_i hg
               split
               · rename_i e he
-                have := hc.done s1 O prio c now f e trivial (by simpa [optHeld] using h1) hf (by simpa using hq) (by simpa using hg) he
-                exact ih _ prio none now ticks O (by simpa [optHeld] using this)
+                have := hc.done s1 O prio c now f e trivial (by simpa [optHeld] using h1) hq1 hf (by simpa using hqe) (by simpa using hg) he
+                exact ih _ prio none now ticks O (by simpa [optHeld] using this) (by rw [transferDoneFile_quiet]; exact hq1)
               · rename_i idx b e he
-                have := hc.pkt s1 O prio c now f idx b e trivial (by simpa [optHeld] using h1) hf (by simpa using hq) (by simpa using hg) he
-                simpa [optHeld] using this
+                have := hc.pkt s1 O prio c now f idx b e trivial (by simpa [optHeld] using h1) hq1 hf (by simpa using hqe) (by simpa using hg) he
+                exact ⟨by simpa [optHeld] using this, hq1⟩
     unfold runFile
     cases cur with
-    | some c => exact key s (some c) h
+    | some c => exact key s (some c) h hq
     | none =>
       simp only []
       cases hg : getNextFile s prio now ticks with
@@ -322,10 +364,10 @@ theorem runFile_inv (hc : Closed0 Inv) : ∀ fuel s prio cur now ticks O,
             · simp at hg; exact hg.symm
             · simp at hg
           subst this
-          exact key s' none h
+          exact key s' none h hq
         | some t =>
-          have := getNextFile_inv hc s O prio now ticks s' t (by simpa [optHeld] using h) hg
-          exact key s' (some (startCur s' t)) (by simpa [optHeld] using this)
+          have := getNextFile_inv hc s O prio now ticks s' t (by simpa [optHeld] using h) hq hg
+          exact key s' (some (startCur s' t)) (by simpa [optHeld] using this.1) this.2
 
 theorem heldSlots_get_perm (prio : Nat) : ∀ (l : List (Option Cur)) (i : Nat) (cur : Option Cur),
     l[i]? = some cur → (heldSlots prio l).Perm (optHeld prio cur ++ heldSlots prio (l.eraseIdx i)) := by
@@ -356,16 +398,17 @@ theorem heldSlots_set_perm (prio : Nat) (l : List (Option Cur)) (i : Nat) (cur :
   exact h
 
 theorem readQueue_inv (hc : Closed0 Inv) : ∀ k s q now ticks O,
-    Inv s (heldQ q ++ O) →
-    Inv (readQueue k s q now ticks).1 (heldQ (readQueue k s q now ticks).2.1 ++ O) := by
+    Inv s (heldQ q ++ O) → s.quiet = true →
+    Inv (readQueue k s q now ticks).1 (heldQ (readQueue k s q now ticks).2.1 ++ O) ∧
+    (readQueue k s q now ticks).1.quiet = true := by
   intro k
   induction k with
-  | zero => intro s q now ticks O h; simpa [readQueue] using h
+  | zero => intro s q now ticks O h hq; exact ⟨by simpa [readQueue] using h, by simpa [readQueue] using hq⟩
   | succ n ih =>
-    intro s q now ticks O h
+    intro s q now ticks O h hq
     unfold readQueue
     split
-    · exact h
+    · exact ⟨h, hq⟩
     · rename_i cur hcur
       have hi : q.index < q.slots.length := by
         rcases Nat.lt_or_ge q.index q.slots.length with h | h
@@ -376,34 +419,35 @@ theorem readQueue_inv (hc : Closed0 Inv) : ∀ k s q now ticks O,
         refine hc.perm _ _ _ ?_ h
         simp only [heldQ, ← List.append_assoc]
         exact List.Perm.append_right _ p1
-      have h2 := runFile_inv hc runFuel s q.prio cur now ticks _ h1
+      have h2 := runFile_inv hc runFuel s q.prio cur now ticks _ h1 hq
       generalize runFile runFuel s q.prio cur now ticks = r at h2
       obtain ⟨s', cur', out⟩ := r
       simp only [] at h2 ⊢
       have p2 := heldSlots_set_perm q.prio q.slots q.index cur' hi
       have h3 : ∀ idx, Inv s' (heldQ { q with slots := q.slots.set q.index cur', index := idx } ++ O) := by
         intro idx
-        refine hc.perm _ _ _ ?_ h2
+        refine hc.perm _ _ _ ?_ h2.1
         simp only [heldQ, ← List.append_assoc]
         exact List.Perm.append_right _ p2.symm
       cases out with
-      | none => exact ih _ _ _ _ _ (h3 _)
-      | hang => exact h3 _
-      | pkt a b c d => exact h3 _
-      | fdt a b c => exact h3 _
+      | none => exact ih _ _ _ _ _ (h3 _) h2.2
+      | hang => exact ⟨h3 _, h2.2⟩
+      | pkt a b c d => exact ⟨h3 _, h2.2⟩
+      | fdt a b c => exact ⟨h3 _, h2.2⟩
 
 theorem readQueues_inv (hc : Closed0 Inv) : ∀ qs s now ticks O,
-    Inv s (held qs ++ O) →
-    Inv (readQueues s qs now ticks).1 (held (readQueues s qs now ticks).2.1 ++ O) := by
+    Inv s (held qs ++ O) → s.quiet = true →
+    Inv (readQueues s qs now ticks).1 (held (readQueues s qs now ticks).2.1 ++ O) ∧
+    (readQueues s qs now ticks).1.quiet = true := by
   intro qs
   induction qs with
-  | nil => intro s now ticks O h; simpa [readQueues] using h
+  | nil => intro s now ticks O h hq; exact ⟨by simpa [readQueues] using h, by simpa [readQueues] using hq⟩
   | cons q rest ih =>
-    intro s now ticks O h
+    intro s now ticks O h hq
     unfold readQueues
     have h1 : Inv s (heldQ q ++ (held rest ++ O)) := by
       simpa [held, List.append_assoc] using h
-    have h2 := readQueue_inv hc q.slots.length s q now ticks _ h1
+    have h2 := readQueue_inv hc q.slots.length s q now ticks _ h1 hq
     generalize readQueue q.slots.length s q now ticks = r at h2
     obtain ⟨s', q', out⟩ := r
     simp only [] at h2 ⊢
@@ -413,55 +457,19 @@ theorem readQueues_inv (hc : Closed0 Inv) : ∀ qs s now ticks O,
       simp only [held, List.flatMap_cons, ← List.append_assoc]
       exact List.Perm.append_right _ List.perm_append_comm
     have fwd : Inv s' (held rest ++ (heldQ q' ++ O)) := by
-      refine hc.perm _ _ _ ?_ h2
+      refine hc.perm _ _ _ ?_ h2.1
       simp only [← List.append_assoc]
       exact List.Perm.append_right _ List.perm_append_comm
     cases out with
     | none =>
       simp only []
-      have h3 := ih s' now ticks _ fwd
+      have h3 := ih s' now ticks _ fwd h2.2
       generalize readQueues s' rest now ticks = r2 at h3
       obtain ⟨s2, rest2, out2⟩ := r2
-      exact back _ _ h3
-    | hang => exact back _ _ fwd
-    | pkt a b c d => exact back _ _ fwd
-    | fdt a b c => exact back _ _ fwd
-
-theorem fdtMaybePublish_sessions (s : State) (now : Nat) : (fdtMaybePublish s now).sessions = s.sessions := by
-  unfold fdtMaybePublish; split <;> rfl
-
-theorem fdtPop_sessions (s : State) : (fdtPop s).sessions = s.sessions := by
-  unfold fdtPop; split <;> rfl
-
-theorem fdtTryStart_sessions (s : State) (now : Nat) : (fdtTryStart s now).1.sessions = s.sessions := by
-  unfold fdtTryStart
-  split
-  · rfl
-  · split
-    · rfl
-    · split <;> rfl
-
-theorem getNextFdt_sessions (s : State) (now : Nat) : (getNextFdt s now).1.sessions = s.sessions := by
-  unfold getNextFdt
-  split
-  · rfl
-  · rw [fdtTryStart_sessions, fdtPop_sessions, fdtMaybePublish_sessions]
-
-theorem fdtGetNext_sessions (s : State) (now : Nat) : (fdtGetNext s now).sessions = s.sessions := by
-  have := getNextFdt_sessions s now
-  unfold fdtGetNext
-  split <;> simp_all
-
-theorem transferDoneFdt_sessions (s : State) (k now : Nat) : (transferDoneFdt s k now).sessions = s.sessions := by
-  unfold transferDoneFdt
-  simp only []
-  split
-  · split <;> rfl
-  · rfl
-
-theorem fdtRelease_sessions (s : State) (k now : Nat) : (fdtRelease s k now).sessions = s.sessions := by
-  unfold fdtRelease
-  exact transferDoneFdt_sessions s k now
+      exact ⟨back _ _ h3.1, h3.2⟩
+    | hang => exact ⟨back _ _ fwd, h2.2⟩
+    | pkt a b c d => exact ⟨back _ _ fwd, h2.2⟩
+    | fdt a b c => exact ⟨back _ _ fwd, h2.2⟩
 
 theorem runFdt_sessions : ∀ fuel s now, (runFdt fuel s now).1.sessions = s.sessions := by
   intro fuel
@@ -560,102 +568,110 @@ theorem runFdt_none : ∀ fuel s now s', runFdt fuel s now = (s', Out.none) → 
       simp only [hs] at h
       refine key (fdtGetNext s now) ?_ h
       intro hn
-      unfold fdtGetNext getNextFdt at hn ⊢
+      unfold fdtGetNext at hn ⊢
       split
-      · rename_i s2 k heq
-        rw [heq] at hn; simp at hn
-      · rename_i s2 heq
-        split at heq
-        · rename_i hb
-          simp only [Prod.mk.injEq, and_true] at heq; subst heq
-          exact Or.inl hb
-        · right
-          have : (fdtTryStart (fdtPop (fdtMaybePublish s now)) now).1 = s2 := by rw [heq]
-          have e2 : (fdtTryStart (fdtPop (fdtMaybePublish s now)) now).2 = none := by rw [heq]
-          generalize fdtPop (fdtMaybePublish s now) = s3 at this e2
-          have : s3 = s2 := by rw [← this]; exact (fdtTryStart_none s3 now e2).symm
-          subst this
-          exact e2
+      · rename_i hb; exact Or.inl hb
+      · rename_i hb
+        rw [if_neg hb] at hn
+        right
+        unfold fdtAdvance at hn ⊢
+        generalize fdtPop (fdtMaybePublish s now) = s3 at hn ⊢
+        cases hts : fdtTryStart s3 now with
+        | mk s4 r =>
+          cases r with
+          | some k => rw [hts] at hn; simp at hn
+          | none =>
+            simp only []
+            have e2 : (fdtTryStart s3 now).2 = none := by rw [hts]
+            have e1 : (fdtTryStart s3 now).1 = s3 := fdtTryStart_none s3 now e2
+            have : s4 = s3 := by rw [hts] at e1; exact e1
+            subst this
+            exact e2
 
 theorem readTail_inv (hc : Closed0 Inv) (s : State) (now : Nat)
-    (h : Inv s (heldOf s)) : Inv (readTail s now).1 (heldOf (readTail s now).1) := by
+    (h : Inv s (heldOf s)) (hq : s.quiet = false) :
+    Inv (readTail s now).1 (heldOf (readTail s now).1) ∧ (readTail s now).1.quiet = false := by
   unfold readTail
-  have h4 := runFdt_inv hc runFuel s now _ h
+  have h4 := runFdt_inv hc runFuel s now _ h hq
   have e4 := runFdt_sessions runFuel s now
   generalize runFdt runFuel s now = r4 at h4 e4
   obtain ⟨s4, o4⟩ := r4
   simp only [] at e4 h4
-  have fin4 : Inv s4 (heldOf s4) := by simpa [heldOf, e4] using h4
+  have fin4 : Inv s4 (heldOf s4) := by simpa [heldOf, e4] using h4.1
   cases o4 with
-  | hang => exact fin4
-  | pkt a b c d => exact fin4
-  | fdt a b c => exact fin4
-  | none => exact hc.emitIdle s4 _ now trivial fin4
+  | hang => exact ⟨fin4, h4.2⟩
+  | pkt a b c d => exact ⟨fin4, h4.2⟩
+  | fdt a b c => exact ⟨fin4, h4.2⟩
+  | none => exact ⟨hc.emitIdle s4 _ now trivial fin4 h4.2, h4.2⟩
 
 theorem readMid_inv (hc : Closed0 Inv) (s : State) (now : Nat) (ticks : List (Nat × Nat))
-    (h : Inv s (heldOf s)) : Inv (readMid s now ticks).1 (heldOf (readMid s now ticks).1) := by
+    (h : Inv s (heldOf s)) (hq : s.quiet = true) :
+    Inv (readMid s now ticks).1 (heldOf (readMid s now ticks).1) ∧ (readMid s now ticks).1.quiet = false := by
   unfold readMid
-  have h2 := readQueues_inv hc s.sessions s now ticks [] (by simpa [heldOf] using h)
+  have h2 := readQueues_inv hc s.sessions s now ticks [] (by simpa [heldOf] using h) hq
   generalize readQueues s s.sessions now ticks = r2 at h2
   obtain ⟨s2, qs, o2⟩ := r2
   simp only [List.append_nil] at h2 ⊢
   have h3 : Inv { s2 with sessions := qs, quiet := false } (heldOf { s2 with sessions := qs, quiet := false }) :=
-    hc.leaveFiles s2 _ qs h2
+    hc.leaveFiles s2 _ qs h2.1
   cases o2 with
-  | hang => exact h3
-  | pkt a b c d => exact h3
-  | fdt a b c => exact h3
-  | none => exact readTail_inv hc _ now h3
+  | hang => exact ⟨h3, rfl⟩
+  | pkt a b c d => exact ⟨h3, rfl⟩
+  | fdt a b c => exact ⟨h3, rfl⟩
+  | none => exact readTail_inv hc _ now h3 rfl
 
 theorem read_inv (hc : Closed0 Inv) (s : State) (now : Nat) (ticks : List (Nat × Nat))
-    (h : Inv s (heldOf s)) : Inv (read s now ticks).1 (heldOf (read s now ticks).1) := by
+    (h : Inv s (heldOf s)) (hq : s.quiet = false) :
+    Inv (read s now ticks).1 (heldOf (read s now ticks).1) ∧ (read s now ticks).1.quiet = false := by
   unfold read
-  have h0 : Inv (emit s (.opRead now)) (heldOf s) := hc.emitRead s _ now trivial h
-  have h1 := runFdt_inv hc runFuel _ now _ h0
+  have h0 : Inv (emit s (.opRead now)) (heldOf s) := hc.emitRead s _ now trivial h hq
+  have h1 := runFdt_inv hc runFuel _ now _ h0 hq
   have e1 := runFdt_sessions runFuel (emit s (.opRead now)) now
   generalize hr1 : runFdt runFuel (emit s (.opRead now)) now = r1 at h1 e1
   obtain ⟨s1, o1⟩ := r1
   simp only [emit_sessions] at e1 h1
-  have fin : Inv s1 (heldOf s1) := by simpa [heldOf, e1] using h1
+  have fin : Inv s1 (heldOf s1) := by simpa [heldOf, e1] using h1.1
   cases o1 with
-  | hang => exact fin
-  | pkt a b c d => exact fin
-  | fdt a b c => exact fin
+  | hang => exact ⟨fin, h1.2⟩
+  | pkt a b c d => exact ⟨fin, h1.2⟩
+  | fdt a b c => exact ⟨fin, h1.2⟩
   | none =>
     have q := runFdt_none runFuel (emit s (.opRead now)) now s1 hr1
-    exact readMid_inv hc _ now ticks (hc.enterFiles s1 _ now trivial fin q)
+    exact readMid_inv hc _ now ticks (hc.enterFiles s1 _ now trivial fin h1.2 q) rfl
 
 /-! ### operation histories -/
 
 theorem step_inv (hc : Closed0 Inv) (ho : ClosedOps0 Inv) (s : State) (op : Op)
-    (h : Inv s (heldOf s)) : Inv (step s op) (heldOf (step s op)) := by
+    (h : Inv s (heldOf s)) (hq : s.quiet = false) :
+    Inv (step s op) (heldOf (step s op)) ∧ (step s op).quiet = false := by
   cases op with
   | add a =>
-    have : heldOf (addObject s a).1 = heldOf s := by
+    have : heldOf (addObject s a).1 = heldOf s ∧ (addObject s a).1.quiet = s.quiet := by
       unfold addObject heldOf; simp only []; split
-      · rfl
-      · split <;> rfl
-    show Inv (addObject s a).1 (heldOf (addObject s a).1)
-    rw [this]; exact ho.add s _ a trivial h
+      · exact ⟨rfl, rfl⟩
+      · split <;> exact ⟨rfl, rfl⟩
+    show Inv (addObject s a).1 (heldOf (addObject s a).1) ∧ _
+    rw [this.1]; exact ⟨ho.add s _ a trivial h, by show (addObject s a).1.quiet = false; rw [this.2, hq]⟩
   | publish now =>
-    show Inv (publishOp s now) (heldOf (publishOp s now))
+    show Inv (publishOp s now) (heldOf (publishOp s now)) ∧ _
     have : heldOf (publishOp s now) = heldOf s := rfl
     rw [this]
-    exact hc.publish _ _ now trivial (ho.emitPublish s _ now trivial h)
+    exact ⟨hc.publish _ _ now trivial (ho.emitPublish s _ now trivial h), hq⟩
   | remove t =>
-    have : heldOf (removeObject s t).1 = heldOf s := by
-      unfold removeObject heldOf; split <;> rfl
-    show Inv (removeObject s t).1 (heldOf (removeObject s t).1)
-    rw [this]; exact ho.remove s _ t trivial h
+    have : heldOf (removeObject s t).1 = heldOf s ∧ (removeObject s t).1.quiet = s.quiet := by
+      unfold removeObject heldOf; split <;> exact ⟨rfl, rfl⟩
+    show Inv (removeObject s t).1 (heldOf (removeObject s t).1) ∧ _
+    rw [this.1]; exact ⟨ho.remove s _ t trivial h, by show (removeObject s t).1.quiet = false; rw [this.2, hq]⟩
   | trigger t ts =>
-    have : heldOf (triggerTransferAt s t ts).1 = heldOf s := by
+    have : heldOf (triggerTransferAt s t ts).1 = heldOf s ∧ (triggerTransferAt s t ts).1.quiet = s.quiet := by
       unfold triggerTransferAt heldOf; split
-      · rfl
-      · split <;> rfl
-    show Inv (triggerTransferAt s t ts).1 (heldOf (triggerTransferAt s t ts).1)
-    rw [this]; exact ho.trigger s _ t ts trivial h
-  | read now ticks => exact read_inv hc s now ticks h
-  | setComplete => exact ho.complete s _ trivial h
+      · exact ⟨rfl, rfl⟩
+      · split <;> exact ⟨rfl, rfl⟩
+    show Inv (triggerTransferAt s t ts).1 (heldOf (triggerTransferAt s t ts).1) ∧ _
+    rw [this.1]
+    exact ⟨ho.trigger s _ t ts trivial h, by show (triggerTransferAt s t ts).1.quiet = false; rw [this.2, hq]⟩
+  | read now ticks => exact read_inv hc s now ticks h hq
+  | setComplete => exact ⟨ho.complete s _ trivial h, hq⟩
 
 theorem heldOf_init (cfg : Cfg) (tbl : List Nat) : heldOf (init cfg tbl) = [] := by
   simp only [heldOf, init, held]
@@ -670,18 +686,19 @@ theorem heldOf_init (cfg : Cfg) (tbl : List Nat) : heldOf (init cfg tbl) = [] :=
     | succ m ihm => simp [List.replicate_succ, optHeld, ihm]
 
 theorem run_inv (hc : Closed0 Inv) (ho : ClosedOps0 Inv) : ∀ (ops : List Op) (s : State),
-    Inv s (heldOf s) → Inv (run s ops) (heldOf (run s ops)) := by
+    Inv s (heldOf s) → s.quiet = false → Inv (run s ops) (heldOf (run s ops)) ∧ (run s ops).quiet = false := by
   intro ops
   induction ops with
-  | nil => intro s h; exact h
+  | nil => intro s h hq; exact ⟨h, hq⟩
   | cons op rest ih =>
-    intro s h
-    exact ih _ (step_inv hc ho s op h)
+    intro s h hq
+    have := step_inv hc ho s op h hq
+    exact ih _ this.1 this.2
 
 /-- a closed invariant that holds initially holds after every operation history -/
 theorem inv_run (hc : Closed0 Inv) (ho : ClosedOps0 Inv) (cfg : Cfg) (tbl : List Nat)
     (h0 : Inv (init cfg tbl) []) (ops : List Op) :
     Inv (run (init cfg tbl) ops) (heldOf (run (init cfg tbl) ops)) :=
-  run_inv hc ho ops _ (by rw [heldOf_init]; exact h0)
+  (run_inv hc ho ops _ (by rw [heldOf_init]; exact h0) rfl).1
 
 end Flute.Sched
